@@ -67,6 +67,7 @@ def check_graph(run: CPRun) -> CaseInfo:
     for k in kernels:
         by_stream.setdefault(k.stream, []).append(k)
     span_edge_seen = set()
+    launch_edges = set()
     for u, v, e, gw in edges:
         src, dst = nodes[u], nodes[v]
         a, b = w.analysed[int(src.ev_idx)], w.analysed[int(dst.ev_idx)]
@@ -96,6 +97,7 @@ def check_graph(run: CPRun) -> CaseInfo:
         if t == "KERNEL_LAUNCH_DELAY":
             require(src.is_start and dst.is_start and a.stream == -1 and b.stream != -1 and w.lk[b.id] == a.id and w.lk[a.id] == b.id,
                     "type:launch_delay_joins_launch_and_its_activity", desc)
+            launch_edges.add((a.id, b.id))
         elif t == "KERNEL_KERNEL_DELAY":
             ok = (not src.is_start) and dst.is_start and a.stream == b.stream and a.stream != -1 and a.id != b.id \
                 and a.cat != "cuda_sync" and b.cat != "cuda_sync"
@@ -129,8 +131,14 @@ def check_graph(run: CPRun) -> CaseInfo:
             require(False, "type:unknown", desc)
     for k in kernels:
         require(k.id in span_edge_seen, "edge:kernel_span_present", lambda: f"kernel {k.id} {k.name} has no start->end edge")
-    if not p["zero_weight_launch_edges"]:
-        pass
+    if p["zero_weight_launch_edges"]:
+        # CRITICAL_PATH_ADD_ZERO_WEIGHT_LAUNCH_EDGE=1 ("we always add a 0 weight edge for runtime launch -> kernel"): every analysed
+        # activity whose launch call is analysed too is joined to it, whether or not the launch delay bounds its start
+        for k in kernels:
+            lid = w.lk.get(k.id, 0)
+            if lid > 0 and lid in w.analysed and k.cat != "cuda_sync":
+                require((lid, k.id) in launch_edges, "edge:launch_edge_present_when_option_on",
+                        lambda: f"kernel {k.id} {k.name} [{k.ts - shift},{k.end - shift}] has no edge from its launch call {lid}")
     classes = [f"type:{t}" for t in types]
     classes.append(f"annotation:{'all' if p['annotation'] == '' else 'step' if p['annotation'].startswith('Profiler') else 'user'}")
     classes.append("zero_weight_edges_on" if p["zero_weight_launch_edges"] else "zero_weight_edges_off")
